@@ -107,7 +107,7 @@ func VerifC41_Concurrent() {
 	preset := verifrt.Choice("counter-preset", 2) == 1
 	var c uint64
 	if preset {
-		c = verifrt.Uint64Range("counter", 0, ^uint64(0)-16)
+		c = verifrt.Uint64Range("counter", 0, 1<<62) // room for the native stress run
 		if par {
 			GetIDGenerator().(*parallelIDGenerator).nextID = c
 		} else {
@@ -116,7 +116,7 @@ func VerifC41_Concurrent() {
 		}
 	}
 	nG := verifrt.Bound("goroutines", 2, 3)
-	per := 2
+	per := verifrt.Stress(2, 20000) // natively each caller draws many more IDs (same assertions)
 	var mu sync.Mutex
 	var wg sync.WaitGroup
 	var ids []uint64
@@ -125,13 +125,12 @@ func VerifC41_Concurrent() {
 		wg.Add(1)
 		go func() {
 			g := GetIDGenerator() // when not preset: races on the lazy creation
+			mine := make([]uint64, 0, per)
 			for i := 0; i < per; i++ {
-				id := g.Generate()
-				mu.Lock()
-				ids = append(ids, id)
-				mu.Unlock()
+				mine = append(mine, g.Generate())
 			}
 			mu.Lock()
+			ids = append(ids, mine...)
 			gens = append(gens, g)
 			mu.Unlock()
 			wg.Done()
@@ -143,15 +142,21 @@ func VerifC41_Concurrent() {
 	for _, g := range gens {
 		verifrt.Assert(g == gens[0], "one-generator-per-simulation")
 	}
+	seen := make(map[uint64]bool, total)
 	var sum uint64
-	for i, id := range ids {
-		verifrt.Assert(id != 0, "id-nonzero")
-		verifrt.Assert(id-c >= 1 && id-c <= uint64(total), "ids-are-the-next-values-of-the-counter")
-		for _, o := range ids[:i] {
-			verifrt.Assert(o != id, "ids-pairwise-distinct")
+	distinct, nonzero, inRange := true, true, true
+	for _, id := range ids {
+		nonzero = verifrt.And(nonzero, id != 0)
+		inRange = verifrt.And(inRange, verifrt.And(id-c >= 1, id-c <= uint64(total)))
+		if seen[id-c] {
+			distinct = false
 		}
+		seen[id-c] = true
 		sum += id - c
 	}
-	verifrt.Assert(sum == uint64(total*(total+1)/2), "ids-are-exactly-the-next-total-values")
+	verifrt.Assert(nonzero, "id-nonzero")
+	verifrt.Assert(inRange, "ids-are-the-next-values-of-the-counter")
+	verifrt.Assert(distinct, "ids-pairwise-distinct")
+	verifrt.Assert(sum == uint64(total)*uint64(total+1)/2, "ids-are-exactly-the-next-total-values")
 	verifrt.Cover("end")
 }
